@@ -459,8 +459,11 @@ IsCallTag(tag) == tag \in CallTags      \* call()'s internal callback: not an ap
 
 CallS(m, a) ==
     IF ~AsyncHandlers THEN Raise(m, "RuntimeError")
-    ELSE LET nid  == Get(m.s.cb, a.sid, [next |-> 1, out |-> <<>>]).next
-             m1   == Emit(m, [ns |-> a.ns, toKind |-> "one", to |-> <<a.sid>>, skipKind |-> "none",
+    ELSE \* a.before: what other threads process before the event has gone out
+         \* (while call() is still preparing); a.during: afterwards, until the wait ends
+         LET m0   == DuringS(m, a.before)
+             nid  == Get(m0.s.cb, a.sid, [next |-> 1, out |-> <<>>]).next
+             m1   == Emit(m0, [ns |-> a.ns, toKind |-> "one", to |-> <<a.sid>>, skipKind |-> "none",
                               skip |-> <<>>, ev |-> a.ev, data |-> "v1", cb |-> CallTag(a.sid, nid)])
              m2   == DuringS(m1, a.during)
              mine == SelectSeq(m2.cbs, LAMBDA x : x.tag = CallTag(a.sid, nid))
@@ -594,9 +597,10 @@ GhostStep(s, g, a, o) ==
                     c \in {c \in g.conn : c.ns = a.ns /\ Has(o.pk, c.t)}}]
       [] a.act = "Call" ->
             IF o.res[1] = "exc" /\ o.res[2] = "RuntimeError" THEN g
-            ELSE LET g1 == [g EXCEPT !.issued = @ \cup
+            ELSE LET g0 == GDuring(s, g, a.before)
+                     g1 == [g0 EXCEPT !.issued = @ \cup
                               {[sid |-> c.sid, id |-> o.pk[c.t][1].id, tag |-> CallTag(c.sid, o.pk[c.t][1].id)] :
-                                  c \in {c \in g.conn : c.sid = a.sid /\ c.ns = a.ns /\ Has(o.pk, c.t)}}]
+                                  c \in {c \in g0.conn : c.sid = a.sid /\ c.ns = a.ns /\ Has(o.pk, c.t)}}]
                  IN  GDuring(s, g1, a.during)
       [] a.act \in {"RxAck", "RxAckDup"} ->
             [g EXCEPT !.issued = {x \in @ : ~(x.id = a.id /\ \E c \in g.conn :
@@ -803,7 +807,9 @@ C06_AckOutcome ==
 C06_CallOutcome ==
     \A a \in Acts(st) : a.act = "Call" =>
         LET o    == Do(st, a)
-            conn == GConnOf(gh, a.sid, a.ns)
+            \* (a transport lost before the event went out: nobody to ask)
+            conn == {c \in GConnOf(gh, a.sid, a.ns) :
+                        ~\E j \in 1..Len(a.before) : a.before[j].act = "EioLost" /\ a.before[j].t = c.t}
         IN  gh.dev = {} =>
             IF ~AsyncHandlers THEN o.res = <<"exc", "RuntimeError">> /\ o.s = st
             ELSE IF conn = {} THEN o.res = <<"exc", "TimeoutError">> /\ o.pk = <<>>
